@@ -325,6 +325,8 @@ func c03CorePrograms() []c03prog {
 		{Name: "add-vs-grow-vs-rotate", PreOpen: true, PreFill: 3, PreTouch: []int{0}, NCtr: 2, Threads: [][]c03op{{add(0), add(1)}, {{Kind: "grow"}}, {{Kind: "rotate"}}}},
 		{Name: "pending-then-open-vs-add", NCtr: 2, PreTouch: []int{0, 1}, Threads: [][]c03op{{{Kind: "open"}}, {add(0), add(1)}, {add(1), add(0)}}},
 		{Name: "grow-vs-grow", PreOpen: true, PreFill: 3, NCtr: 1, PreTouch: []int{0}, Threads: [][]c03op{{{Kind: "grow"}, add(0)}, {{Kind: "grow"}, add(0)}}},
+		// counters still hold pending increments (the first open is walking them) while another thread's Adds fill the first page and re-map
+		{Name: "pending-open-vs-grow", NCtr: 2, PreTouch: []int{0, 1}, Threads: [][]c03op{{{Kind: "open"}}, {{Kind: "grow"}, {Kind: "grow"}, {Kind: "grow"}, {Kind: "grow"}, add(1)}}},
 		{Name: "read-vs-add", PreOpen: true, NCtr: 1, PreTouch: []int{0}, Threads: [][]c03op{{{Kind: "read"}}, {add(0), add(0)}}},
 	}
 }
